@@ -17,9 +17,9 @@ from pytezos.michelson.forge import forge_base58
 from pytezos.michelson.forge import forge_contract
 from pytezos.michelson.forge import forge_public_key
 from pytezos.michelson.forge import optimize_timestamp
-from pytezos.michelson.forge import unforge_address
 from pytezos.michelson.forge import unforge_chain_id
 from pytezos.michelson.forge import unforge_contract
+from pytezos.michelson.forge import unforge_key_hash
 from pytezos.michelson.forge import unforge_public_key
 from pytezos.michelson.forge import unforge_signature
 from pytezos.michelson.format import format_timestamp
@@ -273,7 +273,7 @@ class KeyHashType(StringType, prim='key_hash'):
     @classmethod
     def from_micheline_value(cls, val_expr) -> 'KeyHashType':
         value = parse_micheline_literal(
-            val_expr, {'bytes': lambda x: unforge_address(bytes.fromhex(x)), 'string': lambda x: x}
+            val_expr, {'bytes': lambda x: unforge_key_hash(bytes.fromhex(x)), 'string': lambda x: x}
         )
         return cls.from_value(value)
 
